@@ -1051,6 +1051,19 @@ def driver_configs(tier, seed, algs=None):
             base = dict(shape=[4, 5, 3], rank=2, init=str(rng.choice(["svd", "random"])), tol="tiny", scale=sc, caps=[0, 1, 2, 3, 5], extreme=True)
             base.update(kw)
             add(alg, **base)
+    # ... and the ladder in between: an absolute threshold (an epsilon, a jitter, a floor) inside a scale-free algorithm
+    # shows only in a band of magnitudes -- too small to matter for ordinary data, swamped again at the extremes
+    for sc in (1e-5, 1e-7, 1e-9, 1e-14):
+        for alg, kw in (("parafac", {"data": "generic", "normalize": True}), ("parafac", {"data": "generic"}),
+                        ("nn_parafac", {"data": "nonneg", "normalize": True}), ("nn_parafac_hals", {"data": "nonneg", "normalize": bool(rng.rand() < 0.5)}),
+                        ("tucker", {"data": "generic", "rank": [2, 2, 2]}), ("nn_tucker_hals", {"data": "nonneg", "rank": [2, 2, 2], "algorithm": "active_set"}),
+                        ("parafac2", {"rows": [4, 5, 4], "shape": [3, 0, 4], "data": "generic", "nn_modes": [0, 2], "init": "svd"}),
+                        ("parafac2", {"rows": [4, 5, 4], "shape": [3, 0, 4], "data": "generic", "normalize": True}),
+                        ("constrained_parafac", {"data": "nonneg", "constraints": {"non_negative": True}}),
+                        ("tr_als", {"data": "generic", "shape": [4, 3, 4], "rank": [2, 2, 2, 2], "ls_solve": "lstsq", "init": "random"})):
+            base = dict(shape=[4, 5, 3], rank=2, init=str(rng.choice(["svd", "random"])), tol="tiny", scale=sc, caps=[0, 1, 2, 3, 5], extreme=True)
+            base.update(kw)
+            add(alg, **base)
     for dt, sc in (("float32", None), ("float32", 1e-4), ("float32", 1e3)):
         for alg, kw in (("parafac", {"data": "generic"}), ("nn_parafac", {"data": "nonneg"}), ("nn_parafac_hals", {"data": "nonneg"}),
                         ("tucker", {"data": "generic", "rank": [2, 2, 2]}), ("nn_tucker", {"data": "nonneg", "rank": [2, 2, 2]})):
